@@ -12,6 +12,7 @@ import (
 	"time"
 
 	"github.com/hack-pad/hackpadfs"
+	"github.com/hack-pad/hackpadfs/keyvalue/blob"
 )
 
 // ---------------------------------------------------------------- errors
@@ -455,18 +456,36 @@ func (w *World) Apply(o Op) (obs Obs) {
 	}
 	f := w.Handles[o.H]
 	switch o.Kind {
+	// One call in three goes through the blob-level method of the handle when it has one (ReadBlob, ReadBlobAt, WriteBlob,
+	// WriteBlobAt of the key-value handles): the same transfer, the same offset movement, the same errors.
 	case "h:read":
+		if br, ok := f.(blob.Reader); ok && (o.N+o.H)%3 == 1 {
+			b, n, err := br.ReadBlob(o.N)
+			return Obs{Kind: "hbytes", Bytes: blobPrefix(b, n), Err: canonErr(err)}
+		}
 		buf := make([]byte, o.N)
 		n, err := f.Read(buf)
 		return Obs{Kind: "hbytes", Bytes: buf[:max0(n)], Err: canonErr(err)}
 	case "h:readat":
+		if br, ok := f.(blob.ReaderAt); ok && (o.N+o.H+int(o.Off&1))%3 == 1 {
+			b, n, err := br.ReadBlobAt(o.N, o.Off)
+			return Obs{Kind: "hbytes", Bytes: blobPrefix(b, n), Err: canonErr(err)}
+		}
 		buf := make([]byte, o.N)
 		n, err := hackpadfs.ReadAtFile(f, buf, o.Off)
 		return Obs{Kind: "hbytes", Bytes: buf[:max0(n)], Err: canonErr(err)}
 	case "h:write":
+		if bw, ok := f.(blob.Writer); ok && (len(o.Data)+o.H)%3 == 1 {
+			n, err := bw.WriteBlob(blob.NewBytes(append([]byte(nil), o.Data...)))
+			return Obs{Kind: "hn", N: int64(n), Err: canonErr(err)}
+		}
 		n, err := hackpadfs.WriteFile(f, o.Data)
 		return Obs{Kind: "hn", N: int64(n), Err: canonErr(err)}
 	case "h:writeat":
+		if bw, ok := f.(blob.WriterAt); ok && (len(o.Data)+o.H+int(o.Off&1))%3 == 1 {
+			n, err := bw.WriteBlobAt(blob.NewBytes(append([]byte(nil), o.Data...)), o.Off)
+			return Obs{Kind: "hn", N: int64(n), Err: canonErr(err)}
+		}
 		n, err := hackpadfs.WriteAtFile(f, o.Data, o.Off)
 		return Obs{Kind: "hn", N: int64(n), Err: canonErr(err)}
 	case "h:seek":
@@ -494,6 +513,18 @@ func (w *World) Apply(o Op) (obs Obs) {
 		return Obs{Kind: "herr", Err: canonErr(f.Close())}
 	}
 	panic("unknown op " + o.Kind)
+}
+
+// blobPrefix: the first n bytes of what a blob-level read returned (a copy: the blob may be a view of the file)
+func blobPrefix(b blob.Blob, n int) []byte {
+	if b == nil || n <= 0 {
+		return []byte{}
+	}
+	d := b.Bytes()
+	if n > len(d) {
+		n = len(d)
+	}
+	return append([]byte(nil), d[:n]...)
 }
 
 func max0(n int) int {
